@@ -244,7 +244,7 @@ PROFILES = {
                          dict(mock=0.5, seq=0.5, expect=8, call=5, call_live=14, release=3, setrep=5, dmock=0.5, obj=0.7,
                               dobj=0.7), nmock=2, nseq=1, prelude=('mock', 'seq')),
     'trace': Profile('trace', [1, 2, 4, 15, 16, 50, 51, 55, 30, 40, 12, 9, 90, 91, 92],
-                     dict(mock=0.5, expect=8, call=3, call_live=14, release=2, tracer=5, dtracer=4), nmock=1,
+                     dict(mock=0.5, expect=8, call=3, call_live=14, release=2, tracer=6, dtracer=2.5, dtracer_any=2.5), nmock=1,
                      se_beh=(0, 0, 0, 1, 2, 3), prelude=('mock',), bounds=((1, 1), (0, INF), (1, 3))),
 }
 
